@@ -485,3 +485,50 @@ func ZZ_C12_varname_idx() {
 	rt.Assert(p == !want, "varname:index-suffix-grammar")
 	rt.Reach("end")
 }
+
+// ZZ_C12_fill: the same range rules through FillVariables: filling a variable of a leaf of
+// the given kind with every value of Go type gt is accepted iff the value is in range.
+func ZZ_C12_fill() {
+	kind, w, gt := rt.Param("kind"), rt.Param("w"), rt.Param("gt")
+	v, sx, ux, signed := zzIntArg(gt, "v")
+	var tmpl ItemNode
+	var inRange bool
+	switch kind {
+	case 0:
+		tmpl = NewIntNode(w, "x", 1)
+		max := int64(1)<<(8*uint(w)-1) - 1
+		if signed {
+			inRange = rt.And(-max-1 <= sx, sx <= max)
+		} else {
+			inRange = ux <= uint64(max)
+		}
+	case 1:
+		tmpl = NewUintNode(w, 1, "x")
+		if signed {
+			inRange = rt.And(sx >= 0, uint64(sx) <= zzMaskW(w))
+		} else {
+			inRange = ux <= zzMaskW(w)
+		}
+	case 2:
+		tmpl = NewBinaryNode("x")
+		inRange = gt == 0 && sx >= 0 && sx <= 255
+		if gt == 0 {
+			inRange = rt.And(sx >= 0, sx <= 255)
+		}
+	}
+	var got ItemNode
+	p := rt.Try(func() { got = tmpl.FillVariables(map[string]interface{}{"x": v}) })
+	rt.Assert(p == !inRange, "fill:accepted-iff-in-range")
+	if !p {
+		b := got.ToBytes()
+		switch kind {
+		case 0:
+			rt.Assert(zzBE(b[2:], w) == ux&zzMaskW(w), "fill:encoded-value")
+		case 1:
+			rt.Assert(zzBE(b[2+w:], w) == ux, "fill:encoded-value")
+		case 2:
+			rt.Assert(uint64(b[2]) == ux, "fill:encoded-value")
+		}
+	}
+	rt.Reach("end")
+}
